@@ -552,7 +552,6 @@ func (wk *worker) evaluate(t Tuple, fullHash bool) *verdict {
 
 	// (A) the real whole-app BeginBlocker, uncached and unrecovered as in FinalizeBlock
 	a := engine.Fork(ctx)
-	before := wk.snapshot(a)
 	aNext, aEvents, aHalt := w.BeginBlock(a, 1, 3*time.Second)
 	// (B) the same begin block, module by module in the application's own order
 	bNext, ph := wk.stepwise(engine.Fork(ctx), aNext)
@@ -570,7 +569,8 @@ func (wk *worker) evaluate(t Tuple, fullHash bool) *verdict {
 		engine.Fatal3("C14: module-by-module execution halted in %s (%s) but the whole-app BeginBlocker did not; tuple %s", ph.haltModule, ph.halt, t)
 	}
 	after := wk.snapshot(aNext)
-	if !after.equal(ph.final) || !before.equal(ph.s0) {
+	before := ph.s0 // both executions start from forks of the same prepared state
+	if !after.equal(ph.final) {
 		engine.Fatal3("C14: whole-app BeginBlocker and module-by-module execution end in different states; tuple %s", t)
 	}
 	if fullHash {
